@@ -8,7 +8,7 @@ use crate::print::*;
 use crate::rel::*;
 use crate::rng::{hash64, Rng};
 use crate::scope::{self, ScopeKind};
-use crate::sy;
+use crate::sy::{self, Compiled};
 
 fn all_annot(_s: AnnotSite) -> bool {
     true
@@ -186,6 +186,12 @@ const GENERIC_SNIPPETS: &[[&str; 3]] = &[
         "gclt :: fn a: float, b -> bool do\n    a < b\nend\n\ngcgt :: fn a, b: float ->\n    a > b\nend\n\ngcfilt :: fn xs: [int] ->\n    filter(xs, pu x ->\n        x < 2.5\n    end)\nend\n\ngcmix :: fn a, b: float, s ->\n    (a < b) and (s < \"m\")\nend\n\nguse6 :: fn do\n    print(gclt(2.5, 1))\n    print(gcgt(1, 2.5))\n    print(gcfilt([1, 2, 3, 4]))\n    print(gcmix(1, 2.5, \"a\"))\nend\n",
         "gclt :: fn a, b ->\n    a < b\nend\n\ngcgt :: fn a, b ->\n    a > b\nend\n\ngcfilt :: fn xs ->\n    filter(xs, pu x ->\n        x < 2.5\n    end)\nend\n\ngcmix :: fn a, b, s ->\n    (a < b) and (s < \"m\")\nend\n\nguse6 :: fn do\n    print(gclt(2.5, 1))\n    print(gcgt(1, 2.5))\n    print(gcfilt([1, 2, 3, 4]))\n    print(gcmix(1, 2.5, \"a\"))\nend\n",
     ],
+    // generic types with several type variables, declared in non-alphabetical order; explicit type arguments written / partly written / erased
+    [
+        "Gres :: enum(*T, *E)\n    Ok *T,\n    Err *E,\nend\n\nGpr :: blob(*V, *K) {\n    val: *V,\n    key: *K,\n}\n\ngr1: Gres(int, str) : Gres.Ok 1\n\ngr2: Gres(int, str) : Gres.Err \"bad\"\n\ngp1: Gpr(str, int) : Gpr { val: \"v\", key: 7 }\n\ngunwrap :: fn r: Gres(int, str), d: int -> int do\n    case r do\n        Ok x ->\n            x\n        end\n        Err e ->\n            d\n        end\n    end\nend\n\ngkey :: fn p: Gpr(str, int) -> int do\n    p.key + 1\nend\n\ngswap :: fn p: Gpr(str, int) -> Gpr(int, str) do\n    Gpr { val: p.key, key: p.val }\nend\n\nguse7 :: fn -> void do\n    print(gunwrap(gr1, 0))\n    print(gunwrap(gr2, 5))\n    print(gkey(gp1))\n    print(gp1.val + \"!\")\n    print(gswap(gp1).key + \"?\")\nend\n",
+        "Gres :: enum(*T, *E)\n    Ok *T,\n    Err *E,\nend\n\nGpr :: blob(*V, *K) {\n    val: *V,\n    key: *K,\n}\n\ngr1: Gres : Gres.Ok 1\n\ngr2: Gres(int, str) : Gres.Err \"bad\"\n\ngp1 :: Gpr { val: \"v\", key: 7 }\n\ngunwrap :: fn r: Gres, d -> int do\n    case r do\n        Ok x ->\n            x\n        end\n        Err e ->\n            d\n        end\n    end\nend\n\ngkey :: fn p: Gpr(str, int) ->\n    p.key + 1\nend\n\ngswap :: fn p -> Gpr(int, str) do\n    Gpr { val: p.key, key: p.val }\nend\n\nguse7 :: fn do\n    print(gunwrap(gr1, 0))\n    print(gunwrap(gr2, 5))\n    print(gkey(gp1))\n    print(gp1.val + \"!\")\n    print(gswap(gp1).key + \"?\")\nend\n",
+        "Gres :: enum(*T, *E)\n    Ok *T,\n    Err *E,\nend\n\nGpr :: blob(*V, *K) {\n    val: *V,\n    key: *K,\n}\n\ngr1 :: Gres.Ok 1\n\ngr2 :: Gres.Err \"bad\"\n\ngp1 :: Gpr { val: \"v\", key: 7 }\n\ngunwrap :: fn r, d ->\n    case r do\n        Ok x ->\n            x\n        end\n        Err e ->\n            d\n        end\n    end\nend\n\ngkey :: fn p ->\n    p.key + 1\nend\n\ngswap :: fn p ->\n    Gpr { val: p.key, key: p.val }\nend\n\nguse7 :: fn do\n    print(gunwrap(gr1, 0))\n    print(gunwrap(gr2, 5))\n    print(gkey(gp1))\n    print(gp1.val + \"!\")\n    print(gswap(gp1).key + \"?\")\nend\n",
+    ],
 ];
 
 // ------------------------------------------------------------------ C08
@@ -358,6 +364,63 @@ fn trailing_snippet(ret_form: bool) -> String {
     t
 }
 
+/// Functions whose LAST expression decides whether they are well typed: statements that return early come first,
+/// the final expression holds a nested `ret` (or is itself the value). Written once with the final expression
+/// trailing and once as `ret <expression>`; each with a value of the declared type (both spellings accepted,
+/// same Lua) and with a value of another type (both spellings rejected).
+/// (statements before, final expression with VALUE as the nested / final value)
+const TRAILING_TYPED: &[(&str, &str)] = &[
+    ("if a < 0 do\n    ret 0\nend", "if a > 100 do\n    ret VALUE\nelse do\n    a\nend"),
+    ("if a < 0 do\n    ret 0\nend", "case Maybe.Just a do\n    Just q -> ret VALUE end\n    None -> b end\nend"),
+    ("", "if a > b do\n    ret VALUE\nelse do\n    1\nend"),
+    ("if a < 0 do\n    ret 0\nend", "VALUE"),
+    ("i := 0\nloop i < 3 do\n    i += 1\n    if i == a do\n        ret i\n    end\nend", "if a > 100 do\n    ret VALUE\nelse do\n    a\nend"),
+    ("if a < 0 do\n    ret 0\nend", "if a > 100 do\n    if b > 0 do\n        ret VALUE\n    end\n    1\nelse do\n    2\nend"),
+    ("if a < 0 do\n    ret 0\nend", "if a > 100 do\n    a\nelif a > 50 do\n    ret VALUE\nelse do\n    b\nend"),
+    ("case Maybe.Just a do\n    Just q ->\n        if q < 0 do\n            ret q\n        end\n    end\n    None -> end\nend", "case Maybe.Just b do\n    Just q -> q end\n    None -> ret VALUE end\nend"),
+    ("if a < 0 do\n    ret 0\nend", "if a > 100 do\n    1\nelse do\n    VALUE\nend"),
+    ("do\n    if a < 0 do\n        ret 0\n    end\nend", "a + (if a > 100 do\n    ret VALUE\nelse do\n    1\nend)"),
+];
+
+fn trailing_typed_case(index: u64, st: &mut Stats) {
+    let (pre, fin) = TRAILING_TYPED[index as usize % TRAILING_TYPED.len()];
+    let declared = (index as usize / TRAILING_TYPED.len()) % 2 == 0;
+    let render = |value: &str, ret_form: bool| {
+        let mut lines: Vec<String> = pre.lines().map(|l| l.to_string()).collect();
+        let f: Vec<String> = fin.replace("VALUE", value).lines().map(|l| l.to_string()).collect();
+        for (i, l) in f.iter().enumerate() {
+            lines.push(if i == 0 && ret_form { format!("ret {}", l) } else { l.clone() });
+        }
+        let body = lines.iter().map(|l| format!("    {}", l)).collect::<Vec<_>>().join("\n");
+        format!("classify :: fn a: int, b: int {} do\n{}\nend\n\nstart :: fn do\n    print(classify(5, 1))\n    print(classify(200, 1))\n    print(classify(-3, 1))\nend\n", if declared { "-> int" } else { "->" }, body)
+    };
+    st.count("trailing_typed_functions");
+    let viol = |sig: &str, text: String, obs: String| Violation { signature: sig.to_string(), hazard: None, case: index, detail: J::obj().with("program", J::s(text)).with("observed", J::s(obs)) };
+    let (gt, gr) = (render("7", false), render("7", true));
+    let (bt, br) = (render("\"big\"", false), render("\"big\"", true));
+    match (compile_budgeted(&gt), compile_budgeted(&gr)) {
+        (Compiled::Ok(x), Compiled::Ok(y)) => {
+            if x != y {
+                st.violation(viol("rel:trailing-vs-ret-lua-differs", gt.clone(), "the two spellings of a well-typed function give different Lua".into()));
+                return;
+            }
+        }
+        (x, y) => {
+            st.violation(viol("rel:trailing-typed-template-rejected", gt.clone(), format!("trailing: {} | ret: {}", x.brief(), y.brief())));
+            return;
+        }
+    }
+    let (t, r) = (compile_budgeted(&bt), compile_budgeted(&br));
+    match (&t, &r) {
+        (Compiled::Err { .. }, Compiled::Err { .. }) => {
+            st.count("trailing_typed_functions_as_expected");
+            st.nontrivial(hash64(bt.as_bytes()));
+        }
+        (Compiled::Fuel, _) | (_, Compiled::Fuel) => st.count("trailing_typed_no_verdict"),
+        _ => st.violation(viol("rel:trailing-vs-ret-acceptance-differs-on-ill-typed-function", bt.clone(), format!("trailing spelling: {} | `ret` spelling: {}", t.brief(), r.brief()))),
+    }
+}
+
 pub struct C14;
 
 impl Check for C14 {
@@ -368,6 +431,9 @@ impl Check for C14 {
         scaled(ctx, 6_000, 150_000)
     }
     fn run_case(&self, ctx: &Ctx, index: u64, st: &mut Stats) {
+        if (index as usize) < TRAILING_TYPED.len() * 2 {
+            trailing_typed_case(index, st);
+        }
         let mut rng = Rng::for_case(ctx.seed, "C14", index);
         let depth = 2 + (index % 2) as u32;
         let p = gen::generate(&mut rng, Cfg::general(depth));
@@ -449,12 +515,12 @@ impl Check for C14 {
 
 pub struct C09;
 
-const LOCAL_POOL: &[&str] = &["a", "b", "x", "len", "push", "min", "filter", "n", "abs", "y", "pop", "get", "i", "max", "t", "s", "q", "r", "w", "z"];
+pub(crate) const LOCAL_POOL: &[&str] = &["a", "b", "x", "len", "push", "min", "filter", "n", "abs", "y", "pop", "get", "i", "max", "t", "s", "q", "r", "w", "z"];
 /// hazard pool: names of namespaces the std preamble imports (quarantined: KF-C09-namespace-over-local)
 const NAMESPACE_POOL: &[&str] = &["dict", "set", "math", "maybe", "common", "a", "dict", "x", "set", "n", "b", "y", "math", "i", "t", "s", "q", "r", "w", "z"];
 const GLOBAL_POOL: &[&str] = &["a", "b", "x", "n", "y", "t", "s", "q", "r", "w", "z", "g", "h", "k", "m", "u"];
 
-fn shadow_names(p: &Program, a: &scope::Analysis, salt: u64, local_pool: &[&str]) -> (Vec<String>, u64) {
+pub(crate) fn shadow_names(p: &Program, a: &scope::Analysis, salt: u64, local_pool: &[&str]) -> (Vec<String>, u64) {
     // globals take names from the pool without std names; locals may reuse everything
     let (mut names, mut reused) = scope::shadowing_names(p, a, local_pool, salt);
     let (gnames, _) = scope::shadowing_names(p, a, GLOBAL_POOL, salt);
